@@ -40,6 +40,8 @@ type SVuln struct {
 	Pkg    string      `json:"pkg"`
 	Events [][2]string `json:"events"` // ["introduced","0"], ["fixed","1.1.0"], ["last_affected","1.0.1"]
 	Sev    string      `json:"sev,omitempty"`
+	// Aliases of the record (two entries with one ID describe one record that affects two packages)
+	Aliases []string `json:"aliases,omitempty"`
 }
 
 type SOpts struct {
@@ -323,8 +325,13 @@ const cvssLow = "CVSS:3.1/AV:L/AC:H/PR:H/UI:R/S:U/C:L/I:N/A:N"
 
 func newMatcher(s *Scenario) *osvMatcher {
 	m := &osvMatcher{eco: s.Eco, vulns: s.Vulns}
+	byID := map[string]*osvschema.Vulnerability{}
 	for _, sv := range s.Vulns {
-		rec := &osvschema.Vulnerability{ID: sv.ID}
+		rec := byID[sv.ID]
+		if rec == nil {
+			rec = &osvschema.Vulnerability{ID: sv.ID, Aliases: append([]string(nil), sv.Aliases...)}
+			byID[sv.ID] = rec
+		}
 		af := osvschema.Affected{}
 		af.Package.Name = sv.Pkg
 		af.Package.Ecosystem = s.Eco
